@@ -1,0 +1,38 @@
+//go:build verif
+
+package headerCheck
+
+// Contracts for govc (/verif). Comment-only file: no executable code, not part of the default build.
+
+/*@
+// ones(bm, j): number of set bits in bytes [0, j) of bm
+spec fn ones(bm []byte, j int) int
+  axiom ones(bm, 0) == 0
+  axiom j > 0 ==> ones(bm, j) == ones(bm, j-1) + popcount8(bm[j-1])
+
+// lowBits(b, k): the k least significant bits of b (0 <= k <= 8)
+spec fn lowBits(b byte, k int) byte = k <= 0 ? 0 : (k == 1 ? b % 2 : (k == 2 ? b % 4 : (k == 3 ? b % 8 : (k == 4 ? b % 16 : (k == 5 ? b % 32 : (k == 6 ? b % 64 : (k == 7 ? b % 128 : b)))))))
+
+// memberOnes(bm, n, j): number of set bits with bit index < n in bytes [0, j) of bm (bit i of byte j has index 8*j+i)
+spec fn memberOnes(bm []byte, n int, j int) int
+  axiom memberOnes(bm, n, 0) == 0
+  axiom j > 0 ==> memberOnes(bm, n, j) == memberOnes(bm, n, j-1) + popcount8(lowBits(bm[j-1], n - 8*(j-1)))
+
+func (h data.HeaderHandler) GetPubKeysBitmap() (r []byte)
+  pure
+
+func (v process.FallbackHeaderValidator) ShouldApplyFallbackValidation(header data.HeaderHandler) (r bool)
+  pure
+
+func (hsv *HeaderSigVerifier) verifyConsensusSize(consensusPubKeys []string, header data.HeaderHandler) (err error)
+  requires header != nil && hsv.fallbackHeaderValidator != nil
+  ensures  bitmap-size: err == nil ==> len(header.GetPubKeysBitmap()) == (len(consensusPubKeys) + 7) / 8
+  ensures  counted-quorum: err == nil ==> ones(header.GetPubKeysBitmap(), len(header.GetPubKeysBitmap())) >= (hsv.fallbackHeaderValidator.ShouldApplyFallbackValidation(header) ? len(consensusPubKeys)/2 + 1 : len(consensusPubKeys)*2/3 + 1)
+  ensures  quorum-members-only: err == nil ==> memberOnes(header.GetPubKeysBitmap(), len(consensusPubKeys), len(header.GetPubKeysBitmap())) >= (hsv.fallbackHeaderValidator.ShouldApplyFallbackValidation(header) ? len(consensusPubKeys)/2 + 1 : len(consensusPubKeys)*2/3 + 1)
+  assigns  nothing
+
+loop 1
+  invariant -1 <= rangeindex && rangeindex < len(bitmap) || (rangeindex == -1 && len(bitmap) == 0)
+  invariant numOfOnesInBitmap == ones(bitmap, rangeindex + 1)
+  invariant 0 <= numOfOnesInBitmap && numOfOnesInBitmap <= 8 * (rangeindex + 1)
+@*/
